@@ -136,10 +136,11 @@ Definition known_class_04 (a : sysact) : bool :=
 
 (* ---- the documented step order of the three functions whose CALL ORDER the translator extracts
    (codes: 20 open source, 21 fstat source, 22 probe destination, 23 same-file check, 24 backup decision,
-   26 lstat of a destination the probe called absent, 25 backup name (directory scan), 1 rename, 2 create+truncate, 3 ftruncate, 4 clone attempt,
+   26 lstat of a destination the probe called absent, 27 / 28 take / release the backup-step lock (the scan for a backup
+   number, the rename of the old file and the create of the new one are ONE step with respect to the other workers), 25 backup name (directory scan), 1 rename, 2 create+truncate, 3 ftruncate, 4 clone attempt,
    30 sparseness test, 31 sparse walk, 32 plain loop, 40 CopyHandle::new, 41 Arc::new, 42 extent map,
    43 merge, 44 queue a range, 45 queue the whole file, 97 closure, 98 return) ---- *)
-Definition copy_new_steps : list N := [20; 21; 22; 23; 98; 26; 98; 24; 25; 1; 2; 3].
+Definition copy_new_steps : list N := [20; 21; 22; 23; 98; 26; 98; 27; 97; 24; 25; 1; 2; 28; 3].
 Definition copy_file_steps : list N := [4; 98; 30; 31; 32].
 Definition queue_file_blocks_steps : list N := [40; 4; 98; 41; 97; 30; 42; 43; 44; 45; 45].
 
